@@ -1211,6 +1211,12 @@ class Engine:
                 return [(s, 'ret', r)]
         # 2. closures invoked through Fn* traits
         m = re.match(r'^<(?:&mut |&)?(\{closure@[^}]*\}) as Fn(?:Mut|Once)?<.*>>::call(?:_mut|_once)?$', callee)
+        if not m and re.match(r'^<.* as Fn(?:Mut|Once)?<.*>>::call(?:_mut|_once)?$', callee) and len(args) == 2 and isinstance(args[1], Tup):
+            # generic F: dispatch on the value actually passed
+            f0 = args[0]
+            probe = self.read_ref(s, f0) if isinstance(f0, Ref) else f0
+            if isinstance(probe, FnItem) or (isinstance(probe, Tup) and probe.name and probe.name.startswith('{closure@') and self.closure_fn(probe.name)):
+                m = True
         if m:
             # args: (closure or ref, tuple of args)
             packed = args[1]
